@@ -337,6 +337,14 @@ class Ctx:
                 continue
             seen.add(p.status)
             r, m = self.eng.check_sat(p.pc)
+            if r == "unknown":
+                # a witness only has to exist: give the solver more time before calling the harness inconclusive
+                old = self.eng.timeout_ms
+                self.eng.timeout_ms = old * 5
+                try:
+                    r, m = self.eng.check_sat(p.pc)
+                finally:
+                    self.eng.timeout_ms = old
             if r == "sat":
                 self.witnesses += 1
                 if len(self.samples) < 3:
@@ -869,6 +877,7 @@ def run_job(job):
             res["insns"] += eng.insn_count
             res["queries"] += eng.queries
             res["solver_s"] += eng.solver_time
+            res["abstracted"] = res.get("abstracted", 0) + getattr(eng, "abstracted", 0)
     except Inconclusive as e:
         res["error"] = str(e)
     except Exception:
